@@ -19,6 +19,11 @@ recursion through `List Tmpl`), so closed instances reduce by `decide`.
              for "not inert") and `<!DOCTYPE html>` (`doctype`; only as the first root node: tachys' `Doctype`
              leaves the position untouched, the model treats it like an inert string).
   Values of dynamic positions are part of the template (the case supplies them).
+  Not separate constructors, because the macro does not distinguish them: an element written `<tag …/>` is an
+  element without children (rstml; `is_self_closing` is decided by the tag name alone), and a NON-string literal
+  value (`hidden=false`, `tabindex=2`, `data-k=1.5`, `title='c'`) is for `is_inert_element` (`Lit::Str` only) and
+  `attribute_value` (any literal is passed on as the expression it is) the same as `name={expr}`: the driver decodes
+  them as `boolDyn` / `plain true` with the value tachys prints (`to_string()`).
 
 ## Part 2 — the macro-time (inert) path
 * `svgTags`, `mathTags`, `macroVoid`, `macroNoEscape` — the literal lists of `is_svg_element`,
